@@ -346,6 +346,23 @@ def random_instance(rnd, family, stable=False):
             op['dt_unit'] = rnd.choice(TIME_UNITS)
             op['T_unit'] = rnd.choice(TIME_UNITS)
         return op
+    # declaration order, superseded declarations, and re-declarations on a live model
+    n_elems = len(elems)
+    if rnd.random() < 0.5:
+        order = list(range(1, n_elems))
+        rnd.shuffle(order)
+        inst['decl_order'] = order
+    pre = [i for i in range(1, n_elems) if elems[i]['kind'] == 'SpurGear' and elems[i]['rel']['type'] == 'joint'
+           and elems[i].get('module') is None and (i + 1 >= n_elems or elems[i + 1]['rel']['type'] == 'joint')]
+    if pre and rnd.random() < 0.4:
+        inst['pre_declare'] = [rnd.choice(pre)]
+    geared = [i for i in range(1, n_elems) if elems[i]['rel']['type'] == 'gear']
+
+    def redeclare():
+        i = rnd.choice(geared)
+        return {'op': 'redeclare', 'i': i, 'arg': sig(rnd.uniform(0.4, 1))}
+    if geared and rnd.random() < 0.3:
+        ops.append(redeclare())                 # after the Solver was created, before its first run
     ops.append(run(1, n1))
     r = rnd.random()
     sid = 1
@@ -357,6 +374,8 @@ def random_instance(rnd, family, stable=False):
         ops.append({'op': 'reset'})
         if rnd.random() < 0.7:
             ops.append({'op': 'set_initial', 'pos': init_pos, 'spd': init_spd})
+        if geared and rnd.random() < 0.3:
+            ops.append(redeclare())             # an efficiency sweep: same objects, same Solver, next epoch
         if rnd.random() < 0.5:
             sid = 2
             ops.append({'op': 'new_solver', 'sid': 2})
